@@ -234,6 +234,16 @@ def run(ctx):
         ctx.note("apalache not available or timed out: the inductive leg was skipped (%s)" % (step[3][:100],))
     elif not (base[0] and step[0]) or not neg[1]:
         raise tlc.MachineryError("Apalache: the inductive invariant of ReorderBufferInd does not go through: %s / %s / %s" % (base[3][-200:], step[3][-200:], neg[3][-200:]))
+    cind = os.path.join(tlc.SPECS, "adt", "CircularBufferInd.tla")
+    cbase = apalache.check(cind, "CInitOk", "Init", "IndInv", 0)
+    cstep = apalache.check(cind, "CInitOk", "IndInit", "IndInv", 1)
+    cneg = apalache.check(cind, "CInitNeg", "IndInit", "IndInv", 1)
+    ctx.extra["apalache_inductive_invariant_ring"] = {"module": "CircularBufferInd.tla", "MaxC": 4, "init_implies_inv": cbase[0], "inductive_step": cstep[0],
+                                                       "negative_control_violated": cneg[1], "seconds": round(cbase[2] + cstep[2] + cneg[2], 1)}
+    if cbase[0] is None or cstep[0] is None:
+        ctx.note("apalache not available or timed out: the inductive leg of the ring buffer was skipped (%s)" % (cstep[3][:100],))
+    elif not (cbase[0] and cstep[0]) or not cneg[1]:
+        raise tlc.MachineryError("Apalache: the inductive invariant of CircularBufferInd does not go through: %s / %s / %s" % (cbase[3][-200:], cstep[3][-200:], cneg[3][-200:]))
     rnd = random.Random(ctx.seed * 7919 + 15)
     n = 20 if quick else 200
     big = 200
